@@ -99,69 +99,6 @@ def cscrLayout (r c : Nat) (rowPtr colInd vals rowNum : List Nat) : Container :=
     { scalarIndex := [r * c, r, c, vals.length, rowNum.length], scalarDt := [], elements := [vals],
       indices := [colInd, rowPtr, rowNum] }
 
-/-! ### number printing / parsing instances -/
-
-def pow10 (n : Nat) : Rat := ((10 ^ n : Nat) : Rat)
-
-/-- decimal exponent `e` with `10^e ≤ x < 10^(e+1)` for `x > 0` (search bounded by `fuel`) -/
-def dexpUp (x : Rat) : Nat → Nat → Nat
-  | 0, e => e
-  | fuel + 1, e => if x < pow10 (e + 1) then e else dexpUp x fuel (e + 1)
-
-def dexpDown (x : Rat) : Nat → Nat → Nat
-  | 0, e => e
-  | fuel + 1, e => if x * pow10 e ≥ 1 then e else dexpDown x fuel (e + 1)
-
-def roundHalfEven (x : Rat) : Nat :=
-  let f := x.floor.toNat
-  let r := x - (f : Rat)
-  if r > 1 / 2 then f + 1 else if r < 1 / 2 then f else if f % 2 = 0 then f else f + 1
-
-def pad2 (n : Nat) : String := if n < 10 then s!"0{n}" else toString n
-
-def padLeft0 (s : String) (n : Nat) : String := String.ofList (List.replicate (n - s.length) '0') ++ s
-
-/-- `printf("%.6e")` of a rational (round-half-even on the exact value) -/
-def sci6 (x : Rat) : String :=
-  if x = 0 then "0.000000e+00" else
-  let a := if x < 0 then -x else x
-  let sgn := if x < 0 then "-" else ""
-  -- a = m * 10^e, 1 ≤ m < 10
-  let (neg, e) := if a ≥ 1 then (false, dexpUp a 400 0) else (true, dexpDown a 400 0)
-  let scaled : Rat := if neg then a * pow10 e * pow10 6 else a / pow10 e * pow10 6
-  let m := roundHalfEven scaled
-  let (m, neg, e) :=
-    if m ≥ 10 ^ 7 then
-      (m / 10, if neg ∧ e = 1 then false else neg, if neg then e - 1 else e + 1)
-    else (m, neg, e)
-  let ds := padLeft0 (toString m) 7
-  let neg := neg ∧ e ≠ 0
-  s!"{sgn}{ds.take 1}.{ds.drop 1}e{if neg then "-" else "+"}{pad2 e}"
-
-/-- `atol`: leading decimal digits (no sign needed here); junk → 0 -/
-def atol (s : String) : Nat :=
-  (s.toList.takeWhile Char.isDigit).foldl (fun n ch => 10 * n + (ch.toNat - '0'.toNat)) 0
-
-/-- `atof` on the output of `sci6` (`[-]d.dddddde±XX`); other strings: integer prefix -/
-def parseSci (s : String) : Rat :=
-  let cs := s.toList
-  let (sg, cs) := match cs with
-    | '-' :: r => ((-1 : Rat), r)
-    | _ => ((1 : Rat), cs)
-  let ip := cs.takeWhile Char.isDigit
-  let r1 := cs.dropWhile Char.isDigit
-  let (fp, r2) := match r1 with
-    | '.' :: r => (r.takeWhile Char.isDigit, r.dropWhile Char.isDigit)
-    | _ => ([], r1)
-  let digs := ip ++ fp
-  let m : Nat := digs.foldl (fun n ch => 10 * n + (ch.toNat - '0'.toNat)) 0
-  let base : Rat := (m : Rat) / pow10 fp.length
-  let v : Rat := match r2 with
-    | 'e' :: '-' :: r => base / pow10 (atol (String.ofList r))
-    | 'e' :: '+' :: r => base * pow10 (atol (String.ofList r))
-    | _ => base
-  sg * v
-
 /-! ### writers / readers (lines)
 
 The line layer works on `List Char`; a line written by FEAT is `String.ofList` of its characters. -/
@@ -178,6 +115,93 @@ def atolC (cs : List Char) : Nat :=
 
 /-- `operator<<` of an unsigned integer -/
 def natChars (n : Nat) : List Char := (toString n).toList
+
+/-! ### number printing / parsing instances (`pr`, `rd` of the driver)
+
+`printf("%.6e")` of a rational: sign, one digit, `.`, six digits, `e`, exponent sign, at least two exponent
+digits.  `sciDecomp` is the numeric part (7-digit mantissa `m`, exponent), `fmtSci` the string part. -/
+
+def pow10 (n : Nat) : Rat := ((10 ^ n : Nat) : Rat)
+
+/-- decimal exponent `e` with `10^e ≤ x < 10^(e+1)` for `x ≥ 1` (search bounded by `fuel`) -/
+def dexpUp (x : Rat) : Nat → Nat → Nat
+  | 0, e => e
+  | fuel + 1, e => if x < pow10 (e + 1) then e else dexpUp x fuel (e + 1)
+
+/-- decimal exponent `e` with `10^-e ≤ x` for `0 < x < 1` -/
+def dexpDown (x : Rat) : Nat → Nat → Nat
+  | 0, e => e
+  | fuel + 1, e => if x * pow10 e ≥ 1 then e else dexpDown x fuel (e + 1)
+
+def roundHalfEven (x : Rat) : Nat :=
+  let f := x.floor.toNat
+  let r := x - (f : Rat)
+  if r > 1 / 2 then f + 1 else if r < 1 / 2 then f else if f % 2 = 0 then f else f + 1
+
+/-- mantissa (an integer, 7 digits), exponent sign (`true` = negative), exponent of `a > 0` rounded to 7
+    significant decimal digits, half to even -/
+def sciDecomp (a : Rat) : Nat × Bool × Nat :=
+  let neg := !(a ≥ 1)
+  let e := if a ≥ 1 then dexpUp a 400 0 else dexpDown a 400 0
+  let scaled : Rat := if neg then a * pow10 e * pow10 6 else a / pow10 e * pow10 6
+  let m := roundHalfEven scaled
+  let m' := if m ≥ 10 ^ 7 then m / 10 else m
+  let neg' := if m ≥ 10 ^ 7 then (if neg ∧ e = 1 then false else neg) else neg
+  let e' := if m ≥ 10 ^ 7 then (if neg then e - 1 else e + 1) else e
+  (m', neg' && e' != 0, e')
+
+/-- the rational denoted by mantissa/exponent: `m · 10^(±e − 6)` -/
+def sciValue (d : Nat × Bool × Nat) : Rat :=
+  if d.2.1 then ((d.1 : Rat) / pow10 6) / pow10 d.2.2 else ((d.1 : Rat) / pow10 6) * pow10 d.2.2
+
+/-- `k` decimal digits of `n` (positions `k-1 … 0`), most significant first, zero padded -/
+def digitsN (n : Nat) : Nat → List Char
+  | 0 => []
+  | k + 1 => Nat.digitChar (n / 10 ^ k % 10) :: digitsN n k
+
+/-- at least two exponent digits -/
+def expChars (e : Nat) : List Char := if e < 10 then ['0', Nat.digitChar e] else natChars e
+
+def fmtSci (neg : Bool) (d : Nat × Bool × Nat) : List Char :=
+  (if neg then ['-'] else []) ++
+    (Nat.digitChar (d.1 / 10 ^ 6 % 10) :: '.' :: (digitsN d.1 6 ++ 'e' :: (if d.2.1 then '-' else '+') :: expChars d.2.2))
+
+/-- `printf("%.6e")` of a rational (round-half-even on the exact value) -/
+def sci6 (x : Rat) : String :=
+  if x = 0 then String.ofList (fmtSci false (0, false, 0))
+  else if x < 0 then String.ofList (fmtSci true (sciDecomp (-x)))
+  else String.ofList (fmtSci false (sciDecomp x))
+
+/-- the value `%.6e` keeps of `x`: 7 significant decimal digits, half to even -/
+def round7 (x : Rat) : Rat :=
+  if x = 0 then sciValue (0, false, 0) else if x < 0 then -1 * sciValue (sciDecomp (-x)) else 1 * sciValue (sciDecomp x)
+
+/-- `atol`: leading decimal digits (no sign needed here); junk → 0 -/
+def atol (s : String) : Nat := atolC s.toList
+
+/-- `atof` after the sign: `d.dddddde±XX` (the output of `sci6`); other strings: decimal prefix -/
+def parseBody (cs : List Char) : Rat :=
+  let ip := cs.takeWhile Char.isDigit
+  let r1 := cs.dropWhile Char.isDigit
+  let fp := match r1 with
+    | '.' :: r => r.takeWhile Char.isDigit
+    | _ => []
+  let r2 := match r1 with
+    | '.' :: r => r.dropWhile Char.isDigit
+    | _ => r1
+  let base : Rat := (Nat.ofDigitChars 10 (ip ++ fp) 0 : Rat) / pow10 fp.length
+  match r2 with
+    | 'e' :: '-' :: r => base / pow10 (atolC r)
+    | 'e' :: '+' :: r => base * pow10 (atolC r)
+    | _ => base
+
+def parseSciC (cs0 : List Char) : Rat :=
+  match cs0 with
+  | '-' :: r => -1 * parseBody r
+  | _ => 1 * parseBody cs0
+
+def parseSci (s : String) : Rat := parseSciC s.toList
+
 
 def firstToken (s : String) : String × String :=
   (String.ofList (tok1 s.toList).1, String.ofList (tok1 s.toList).2)
